@@ -1,6 +1,8 @@
 #!/bin/sh
 # Offline build of the Lean library (models + theorems). No network, no `lake update`.
 cd "$(dirname "$0")/lean" || exit 1
+# regenerate the source-derived tables (AST only) so that the theorems over them build against the current /repo
+/venv/bin/python ../harness/translate/ast_tables.py "${CUQI_REPO:-/repo}" CuqiVerif/Generated 2>&1 | tail -2
 lake build CuqiVerif 2>&1 | tail -3
 mods=""
 for f in CuqiVerif/Model/*.lean CuqiVerif/Props/*.lean; do
